@@ -24,7 +24,7 @@ WHITE_BOX = ["private running statistics (twin comparison only)"]
 ERR = ["DDM", "EDDM", "STEPD", "ADWINAccuracy"]
 UNUSED_Y = ["ADWIN", "PageHinkley", "CUSUM", "KdqTreeStreaming", "PCACD", "KdqTreeBatch", "HDDDM", "CDBD", "NNDVI"]
 ENC = ["int", "str", "bool", "float", "multi", "np", "list", "arr"]
-CELL = ["int", "bool", "np", "list", "arr"]
+CELL = ["int", "bool", "np", "list", "arr", "npbool", "boollist", "boolarr"]
 N_JUNK = 6
 
 
@@ -69,6 +69,12 @@ def _decode(kind, v):
         return np.array([v])
     if kind == "bool":
         return bool(v)
+    if kind == "npbool":
+        return np.bool_(v)
+    if kind == "boollist":
+        return [bool(v)]
+    if kind == "boolarr":
+        return np.array([bool(v)])
     return v
 
 
